@@ -347,7 +347,7 @@ def _big_file_job(job):
     base = m.text()
     pad = None
     for k in range(0, 400):
-        b = ('!!!PAD: ' + 'x' * k + '\n' + base).encode('utf-8')
+        b = ('!!!PAD: p' + 'x' * k + '\n' + base).encode('utf-8')
         if len(b) > boundary and b[boundary] & 0xC0 == 0x80:
             pad = k
             break
@@ -355,7 +355,7 @@ def _big_file_job(job):
         acc.caps.append(f'no padding puts byte {boundary} inside a multi-byte character')
         return acc
     m2 = D.giant_model(seed)
-    m2.rows.insert(0, ('g', '!!!PAD: ' + 'x' * pad))
+    m2.rows.insert(0, ('g', '!!!PAD: p' + 'x' * pad))
     m2.header_row += 1
     for k_, r in m2.rows:
         if k_ == 'c':
